@@ -497,6 +497,7 @@ fn wrapped_usages(ctx: &Ctx) {
             Verdict::Done { kind, .. } => format!("build returned {}", kind),
             Verdict::Hang { steps } => format!("not rejected: ran into the step budget ({} steps)", steps),
             Verdict::Memory { live } => format!("not rejected: went on to allocate {} MiB", live >> 20),
+            Verdict::Churn { calls } => format!("not rejected: ran into the allocator-call budget ({} calls)", calls),
             Verdict::Crash { how, .. } => format!("not rejected: worker died ({})", how),
             Verdict::Inconclusive(w) => {
                 ctx.inconclusive(format!("wrapped usage case: {}", w));
